@@ -21,6 +21,7 @@ import numpy as np
 from hypothesis import strategies as st
 
 import jax
+import jax.numpy as jnp
 import tensorflow as tf
 
 import fedjax
@@ -269,8 +270,12 @@ def toy_algorithm():
   """state' = f(state, ordered cohort ids, data, keys): order-sensitive."""
 
   def init(seed):
+    # 'lr' is a weakly typed device scalar (born from a Python float, like a
+    # learning rate or a decay) and 'half' a float16 device array: their product
+    # stays float16 only as long as 'lr' is still weakly typed after a restore
     return {'acc': np.array([seed % M, 7], dtype=np.int64),
-            'hist': np.zeros([3], dtype=np.int64), 'rounds': 0}
+            'hist': np.zeros([3], dtype=np.int64), 'rounds': 0,
+            'lr': jnp.asarray(0.5), 'half': jnp.full((2,), 1.0, jnp.float16)}
 
   def apply(state, clients):
     i = inj()
@@ -286,7 +291,8 @@ def toy_algorithm():
     hist = np.roll(state['hist'], 1)
     hist[0] = acc
     new = {'acc': np.array([acc, int(state['acc'][1]) + len(clients)], dtype=np.int64),
-           'hist': hist, 'rounds': state['rounds'] + 1}
+           'hist': hist, 'rounds': state['rounds'] + 1,
+           'lr': state['lr'], 'half': state['half'] * state['lr'] + 1}
     return new, {cid: None for cid, _, _ in clients}
 
   return fedjax.FederatedAlgorithm(init, apply)
@@ -342,7 +348,10 @@ class FinalEval(fe.EvaluationFn):
 
 def state_equal(a, b):
   return (set(a) == set(b) and np.array_equal(a['acc'], b['acc']) and
-          np.array_equal(a['hist'], b['hist']) and a['rounds'] == b['rounds'])
+          np.array_equal(a['hist'], b['hist']) and a['rounds'] == b['rounds'] and
+          np.asarray(a['half']).dtype == np.asarray(b['half']).dtype and
+          np.array_equal(np.asarray(a['half']), np.asarray(b['half'])) and
+          np.array_equal(np.asarray(a['lr']), np.asarray(b['lr'])))
 
 
 def one_run(case, root, injector):
